@@ -99,21 +99,27 @@ func genDoc(r *rand.Rand, o genOpts) map[string]any { return genMap(r, o, 0) }
 
 // ---- dom <-> plain, written independently of the toolkit's own AsMap/FromMap
 
-func nodeToAny(n dom.Node) any {
+func nodeToAny(n dom.Node) any { return nodeToAnyD(n, 0) }
+
+// depth-limited: a cyclic DOM (a node stored inside itself) must not crash the harness
+func nodeToAnyD(n dom.Node, depth int) any {
+	if depth > 64 {
+		return Opaque{"<deeper than 64 levels: cyclic DOM?>"}
+	}
 	switch {
 	case n == nil:
 		return Opaque{"<nil node>"}
 	case n.IsContainer():
 		m := map[string]any{}
 		for k, v := range n.(dom.Container).Children() {
-			m[k] = nodeToAny(v)
+			m[k] = nodeToAnyD(v, depth+1)
 		}
 		return m
 	case n.IsList():
 		items := n.(dom.List).Items()
 		l := make([]any, 0, len(items))
 		for _, it := range items {
-			l = append(l, nodeToAny(it))
+			l = append(l, nodeToAnyD(it, depth+1))
 		}
 		return l
 	default:
